@@ -1,4 +1,6 @@
 ENGINES = [
+    {"name": "crashmc", "path": "mc/crashmc.py", "serves_properties": ["C07"],
+     "kind_free_text": "crash-point enumeration over the syscall log (strace) of the real writer: all byte prefixes of the write sequence, recovery and restart executed on the real library"},
     {"name": "gridmc", "path": "mc/checks", "serves_properties": ["C18"],
      "kind_free_text": "exhaustive enumeration of finite option lattices / member lists crossed with small branch-covering data alphabets, each point compared with an oracle independent of REBOUND"},
     {"name": "histmc", "path": "mc/histmc.py", "serves_properties": ["C05", "C06", "C14"],
@@ -8,6 +10,15 @@ NOTES = ("All checks explore the real implementation rebuilt from /repo's workin
          "so traces_validated_against_impl equals the number of executed transitions. known_findings.json lists repaired defects (fixed:) and recorded ones.")
 NOT_APPLICABLE = {}
 CHECKS = {
+    "C07": {
+        "engine": "crashmc", "category": "fault_enumeration",
+        "technique": "exhaustive crash-point enumeration: every byte prefix of the strace-logged write(2) sequence of a 5-snapshot archive history, each image opened, compared and restarted on the real (ASan) library",
+        "text": "For each (integrator, cadence mode) a 5-snapshot history (manual snapshots with a structural change / step cadence / interval cadence) is written once under strace; the logged lseek/write sequence (checked to reproduce the file byte for byte) "
+                "yields every crash image, i.e. the file after every byte prefix of the modification sequence including the in-place patch of the previous trailer (~11k images per scenario; quick 4 scenarios, thorough 33). "
+                "Each image is opened with Simulationarchive(), the C constructor and Simulation(file) in a worker where a dying process is an observation; an error is demanded iff no snapshot is complete, the exposed set must lie between "
+                "'fully written' and 'content complete', every exposed snapshot must equal the uninterrupted archive's, and the run is restarted from the last exposed snapshot with the same cadence call and must reproduce the uninterrupted archive (count, times, contents).",
+        "note": "Process-crash fault model (completed write(2) calls persist, stdio buffer lost, one write cut at any byte); no block reordering. Second-level crashes during the repair-append are not yet enumerated.",
+    },
     "C06": {
         "engine": "histmc", "category": "model_checking",
         "technique": "exhaustive enumeration of operation histories (depth-bounded) with a snapshot after every operation, all snapshots re-read after every append and compared with a reference list of serialised live states; cadence model checked against a lock-step reference run",
